@@ -12,20 +12,20 @@ def check(repo, rep, tier):
                        'old-before-new with each definition called separately; a load writes engine state only after the '
                        'script ran successfully on a copy; API names are not addressable as predicates. Answers of arbitrary '
                        'load/register/assert histories as values are not decided.')
-    rq.rule_facts_first(em, rep, 'C08.Q1')
-    rq.rule_key_templates(em, rep, 'C08.Q2')
-    rq.rule_exact_then_variadic(em, rep, 'C08.Q3')
+    rep.run(rq.rule_facts_first, em, rep, 'C08.Q1')
+    rep.run(rq.rule_key_templates, em, rep, 'C08.Q2')
+    rep.run(rq.rule_exact_then_variadic, em, rep, 'C08.Q3')
     q = rq._method(em, 'query')
     md = rq._method(em, 'match_dynamic')
-    rq.rule_no_engine_exception(em, rep, 'C08.Q4', [q, md])
-    rq.rule_guarded_subscripts(em, rep, 'C08.Q4b')
-    rq.rule_combine_order(em, rep, 'C08.Q5')
-    rq.rule_atomic_load(em, rep, 'C08.Q6')
-    rq.rule_api_unreachable(em, rep, 'C08.Q8')
-    rx.rule_derived_tables_follow(em, rep, 'C08.Q9')
-    rx.rule_lookup_confined(em, rep, 'C08.Q10')
-    rx.rule_lookups_agree(em, rep, 'C08.Q11')
-    rq.rule_values_never_inspected(em, rep, 'C08.Q12')
+    rep.run(rq.rule_no_engine_exception, em, rep, 'C08.Q4', [q, md])
+    rep.run(rq.rule_guarded_subscripts, em, rep, 'C08.Q4b')
+    rep.run(rq.rule_combine_order, em, rep, 'C08.Q5')
+    rep.run(rq.rule_atomic_load, em, rep, 'C08.Q6')
+    rep.run(rq.rule_api_unreachable, em, rep, 'C08.Q8')
+    rep.run(rx.rule_derived_tables_follow, em, rep, 'C08.Q9')
+    rep.run(rx.rule_lookup_confined, em, rep, 'C08.Q10')
+    rep.run(rx.rule_lookups_agree, em, rep, 'C08.Q11')
+    rep.run(rq.rule_values_never_inspected, em, rep, 'C08.Q12')
     from .. import rules_compile as rc
     from .. import rules_clause as rcl
-    rcl.rule_calls_late_bound(rc.CompilerModel(repo), rep, 'C08.Q7')
+    rep.run(rcl.rule_calls_late_bound, rc.CompilerModel(repo), rep, 'C08.Q7')
